@@ -620,3 +620,8 @@ fire("c16-patience-window-slice", "C16", "flowjax/train/data_fit.py",
 fire("c13-scalar-cond-shape-truthiness", "C13", B + "bijection.py",
      "                and condition.shape != bijection.cond_shape",
      "                and bijection.cond_shape and condition.shape != bijection.cond_shape")
+silent("c04-benign-affine-broadcast-to-shapes", ["C04", "C02", "C05", "C11"], B + "affine.py",
+       "        self.loc, scale = jnp.broadcast_arrays(\n            *(arraylike_to_array(a, dtype=float) for a in (loc, scale)),\n        )\n        self.shape = scale.shape",
+       "        loc, scale = (arraylike_to_array(a, dtype=float) for a in (loc, scale))\n"
+       "        self.shape = jnp.broadcast_shapes(loc.shape, scale.shape)\n"
+       "        self.loc = jnp.broadcast_to(loc, self.shape)\n        scale = jnp.broadcast_to(scale, self.shape)")
